@@ -597,7 +597,8 @@ def install_cases(R):
     R.prop_meta["C02"] = dict(
         bounded_in_quick="the cases branch of combo_runner_core (enumeration cases x sub-grid, per-argument unions, placeholder filling) and the "
                          "recursion of infer_shape: replay/C02.py runs the real code on random case sets over 1-3 arguments x 5 result kinds x "
-                         "shuffle on/off and enumerates nested list shapes up to depth 3 / width 3",
+                         "shuffle on/off, enumerates nested list shapes up to depth 3 / width 3, and goes through the case_runner entry point (names from the signature, an argument "
+                         "in both cases and sub-grid rejected before any call, cases x sub-grid)",
         not_decided=["cases branch of combo_runner_core: proved (variant combo_runner_core@cases) for a pure case list in flat form - one call per case with the case's "
                      "own values looked up BY NAME (whatever order each dict lists its keys in), results in case order for every shuffle seed; the nested sparse "
                      "form (per-argument unions, _unflatten with placeholders) and cases crossed with a sub-grid (index arithmetic i*P+s is non-linear) are "
